@@ -336,3 +336,37 @@ struct utmp *getutent(void) {
     maybe_handoff();
     return r;
 }
+
+/* ------------------------------------------------------------------------
+ * A kernel with more possible CPUs than this machine (check C18, "bigkernel"):
+ * when VF_AFFINITY_FILE names a file "<nbits> <cpu> <cpu> ...", sched_getaffinity()
+ * answers like a kernel whose nr_cpu_ids is <nbits>: EINVAL when the caller's
+ * mask is shorter than that, otherwise exactly the listed CPUs.
+ */
+#include <sched.h>
+
+int sched_getaffinity(pid_t pid, size_t cpusetsize, cpu_set_t *mask) {
+    static int (*real)(pid_t, size_t, cpu_set_t *) = NULL;
+    const char *path = getenv("VF_AFFINITY_FILE");
+    FILE *f;
+    long nbits, cpu;
+    if (real == NULL)
+        real = (int (*)(pid_t, size_t, cpu_set_t *))dlsym(RTLD_NEXT, "sched_getaffinity");
+    if (path == NULL || *path == '\0' || (f = fopen(path, "r")) == NULL)
+        return real(pid, cpusetsize, mask);
+    if (fscanf(f, "%ld", &nbits) != 1) {
+        fclose(f);
+        return real(pid, cpusetsize, mask);
+    }
+    if (cpusetsize * 8 < (size_t)nbits || (cpusetsize & (sizeof(unsigned long) - 1))) {
+        fclose(f);
+        errno = EINVAL;
+        return -1;
+    }
+    memset(mask, 0, cpusetsize);
+    while (fscanf(f, "%ld", &cpu) == 1)
+        if (cpu >= 0 && cpu < nbits)
+            CPU_SET_S((size_t)cpu, cpusetsize, mask);
+    fclose(f);
+    return 0;
+}
